@@ -449,12 +449,14 @@ class Num(Val):
         self.conj = conj        # D2 conjugation class: 'I' invariant, 'E' equivariant, 'M' mirrored, TOP/None unknown
         self.ex = None          # exact (rational-affine) value of a scalar when known
         self.sx = None          # exact value as a sympy expression (products/quotients of sizes)
+        self.seg = None         # D3 index map (list of segmap.Seg) when the array is a re-arrangement
 
     def copy(self, **kw):
         n = Num(dict(self.deg), self.shape, self.cplx, self.zero, dict(self.log) if self.log else self.log,
                 self.taint, self.rv, self.nonneg, self.role, self.conj)
         n.ex = self.ex
         n.sx = self.sx
+        n.seg = None            # index maps never survive an implicit copy: each operation sets its own
         for k, v in kw.items():
             setattr(n, k, v)
         return n
